@@ -30,6 +30,13 @@ def shapes(rng, hist, nk):
         if i % 3 == 2:
             ops += [{"op": "idxgc", "scanFree": True, "deadline": 0}, {"op": "flush"}]
     out.append(("drain", ops))
+    # S5: a cycle stopped by its time limit while it reads the freelist (after d checks), then complete cycles: what the
+    #     stopped cycle left behind (.gc file, marked records, visited set) must not keep the complete ones from reclaiming
+    ops = list(hist) + [{"op": "flush"}] + gc_round(101, False) + [{"op": "rem", "k": k} for k in keys] + [{"op": "flush"}]
+    ops += [{"op": "prigc", "lowUse": 101, "deadline": rng.choice([1, 2, 3, 4, 5, 6])}]
+    for i in range(5):
+        ops += gc_round(101, i % 2 == 0)
+    out.append(("interrupted", ops))
     # S4: fixed point of idle rounds
     ops = list(hist) + [{"op": "flush"}, {"op": "gcfix", "n": 8, "lowUse": 85, "scanFree": True}]
     out.append(("fixed-point", ops))
@@ -54,7 +61,7 @@ def run(pid):
         for kind, ops in shapes(rng, h, nk):
             scens.append({"cfg": c, "ops": ops})
             kinds.append(kind)
-    vlib.log("C11: %d histories x 4 shapes = %d scenarios" % (len(hs), len(scens)))
+    vlib.log("C11: %d histories x 5 shapes = %d scenarios" % (len(hs), len(scens)))
     by, n = seqeng.run_and_judge(scens, "c11", monitors=[("C11Trace", None), ("StoreTrace", None)])
     # contents must of course survive all of this too (StoreTrace); attribute only C11Trace rules and crashes here
     mine = {}
